@@ -3,7 +3,7 @@
  * src/arch/abtd_affinity.c.
  *
  * kind S (sequential, one controlled thread, no ABT_init needed).  One
- * execution = one shard (two abtmc_choose(10) -> 100 shards) that loops over
+ * execution = one shard (three abtmc_choose(10) -> 1000 shards) that loops over
  * its share of the input strings.  For every string: accepted iff the
  * reference accepts, identical expansion, ledger balance 0 after free /
  * after a rejection; in the mc-asan flavour ASan (reads past the NUL, heap
@@ -46,12 +46,11 @@ static const cfg_t cfgs[] = {
     { "valid corpus + single-character mutations", 1, 1, 0 },
     { "long integer tokens in every numeric position", 1, 2, 0 },
     { "all strings len<=7", 0, 0, 7 },
-    { "all strings len<=8", 0, 0, 8 },
 };
 
 static const char ALPHA[] = "0129-+ {}:,";
 #define NALPHA 11
-#define NSHARD 100
+#define NSHARD 1000
 
 /* ------------------------------------------------------------ reference */
 
@@ -234,7 +233,7 @@ static int max_lists_seen;
 static char *tailbuf;
 #define TAILSZ 256
 
-#define MAX_LISTS_RUN 3000          /* ledger capacity of the engine */
+#define MAX_LISTS_RUN 1200          /* engine ledger capacity, shard time */
 #define MAX_INTS_RUN (4 * 1024 * 1024)
 
 static __int128 i128(int64_t v) { return (__int128)v; }
@@ -273,6 +272,7 @@ static void check_one(const char *s0)
 
     long live0 = abtmc_ledger_live();
     ABTD_affinity_list *p_list = NULL;
+    abtmc_tracef("ABTD_affinity_list_create(\"%s\")", s0); /* --trace only */
     int ret = ABTD_affinity_list_create(s, &p_list);
     n_calls++;
     if (ret != ABT_SUCCESS) {
@@ -482,26 +482,34 @@ static void scenario(int cfg)
     abtmc_window_begin();
     int a = abtmc_choose(10, ABTMC_B_FREE);
     int b = abtmc_choose(10, ABTMC_B_FREE);
+    int c = abtmc_choose(10, ABTMC_B_FREE);
     abtmc_window_end();
-    int shard = a * 10 + b;
+    int shard = (a * 10 + b) * 10 + c;
     long live0 = abtmc_ledger_live();
 
     if (C->kind == 0) {
         if (shard == 0) {
+            /* the strings of length 0, 1 and 2 */
             check_one("");
             for (int i = 0; i < NALPHA; i++) {
-                char s[2] = { ALPHA[i], 0 };
+                char s[3] = { ALPHA[i], 0, 0 };
                 check_one(s);
+                for (int j = 0; j < NALPHA; j++) {
+                    s[1] = ALPHA[j];
+                    check_one(s);
+                }
+                s[1] = 0;
             }
         }
-        for (int pair = shard; pair < NALPHA * NALPHA; pair += NSHARD) {
-            int fixed[2] = { pair / NALPHA, pair % NALPHA };
-            for (int len = 2; len <= C->maxlen; len++) {
+        for (int tr = shard; tr < NALPHA * NALPHA * NALPHA; tr += NSHARD) {
+            int fixed[3] = { tr / (NALPHA * NALPHA), tr / NALPHA % NALPHA,
+                             tr % NALPHA };
+            for (int len = 3; len <= C->maxlen; len++) {
                 c20_enum e;
-                c20_enum_start(&e, ALPHA, len, fixed, 2);
+                c20_enum_start(&e, ALPHA, len, fixed, 3);
                 do {
                     check_one(e.str);
-                } while (c20_enum_next(&e, 2));
+                } while (c20_enum_next(&e, 3));
             }
         }
     } else if (C->kind == 1) {
